@@ -138,6 +138,16 @@ class Locator:
         from scipy.spatial import cKDTree
 
         self.tree, self.tol = cKDTree(m.xyz), tol
+        # nodes of the original that coincide (file sources may list a position twice) share one name
+        self.rep = np.arange(m.n_node)
+        for a, b in sorted(self.tree.query_pairs(tol)):
+            self.rep[b] = min(self.rep[b], self.rep[a])
+
+    def name_faces(self, faces):
+        return [[int(self.rep[v]) for v in f] for f in faces]
+
+    def name_rows(self, rows):
+        return [[int(self.rep[v]) if v != INT_FILL else INT_FILL for v in r] for r in rows]
 
     def ids(self, lon, lat):
         p = unit(lon, lat)
@@ -146,7 +156,7 @@ class Locator:
         bad = ~np.isfinite(p).all(axis=1)
         p[bad] = 9.0
         d, i = self.tree.query(p)
-        i = np.where(d <= self.tol, i, -1)
+        i = np.where(d <= self.tol, self.rep[np.minimum(i, len(self.rep) - 1)], -1)
         return i.reshape(shape)
 
 
@@ -188,8 +198,39 @@ def mesh_json(m, source="topology"):
     return dict(faces=m.faces, xyz=m.xyz.tolist(), kind=m.kind, closed=bool(m.closed), source=source)
 
 
-def build_grid(ux, m, source):
-    """the grid and the abstract mesh in the GRID's node numbering (a face-vertex source numbers its nodes itself)"""
+def meshfiles_dir():
+    d = common.REPO / "test" / "meshfiles"
+    return d if d.is_dir() else common.Path("/repo/test/meshfiles")
+
+
+# every sample under test/meshfiles that ux.open_grid reads as a grid (fesom.mesh.diag.nc is read with faces and
+# corners transposed - that is the readers' property, C01 - and is left out)
+SAMPLE_FILES = ["ugrid/quad-hexagon/grid.nc", "ugrid/quad-hexagon/triangulated-grid.nc", "ugrid/ov_RLL10deg_CSne4/ov_RLL10deg_CSne4.ug",
+                "ugrid/geoflow-small/grid.nc", "ugrid/outCSne30/outCSne30.ug", "ugrid/outRLL1deg/outRLL1deg.ug",
+                "exodus/mixed/mixed.exo", "exodus/outCSne8/outCSne8.g", "scrip/outCSne8/outCSne8.nc",
+                "mpas/QU/mesh.QU.1920km.151026.nc", "geos-cs/c12/test-c12.native.nc4", "esmf/ne30/ne30pg3.grid.nc"]
+
+
+BIG_FILES = {"ugrid/geoflow-small/grid.nc", "ugrid/outCSne30/outCSne30.ug"}
+HUGE_FILES = {"ugrid/outRLL1deg/outRLL1deg.ug", "esmf/ne30/ne30pg3.grid.nc"}
+
+
+def file_json(rel):
+    return dict(faces=[], xyz=[], kind="file:" + rel, closed=False, source="file", path=rel)
+
+
+def build_grid(ux, m, source, j=None):
+    """the grid and the abstract mesh in the GRID's node numbering (a face-vertex source numbers its nodes itself;
+    for a sample file the grid ux.open_grid returns IS the original the exports are compared with)"""
+    if source == "file":
+        g = ux.open_grid(str(meshfiles_dir() / j["path"]))
+        t = np.asarray(g._ds["face_node_connectivity"].values)
+        if "node_lon" in g._ds:
+            xyz = unit(g._ds["node_lon"].values, g._ds["node_lat"].values)
+        else:
+            xyz = np.stack([g._ds["node_x"].values, g._ds["node_y"].values, g._ds["node_z"].values], axis=-1)
+        m2 = meshes.AMesh([[int(v) for v in r if v != INT_FILL] for r in t], xyz, False, j.get("kind", "file"))
+        return g, m2
     if source != "xyz":
         return meshes.to_grid(m, ux), m
     verts = np.full((m.n_face, m.width, 3), float(INT_FILL))
@@ -203,6 +244,8 @@ def build_grid(ux, m, source):
 
 
 def mesh_from(j):
+    if j.get("source") == "file":
+        return None
     return meshes.AMesh(j["faces"], np.array(j["xyz"], float), j.get("closed", False), j.get("kind", "replay"))
 
 
@@ -225,7 +268,7 @@ def execute(H, driver, stats=None):
     hit = (lambda k: stats.__setitem__(k, stats.get(k, 0) + 1)) if stats is not None else (lambda k: None)
     reset_module_state()
     ms0 = [mesh_from(j) for j in H["meshes"]]
-    built = [build_grid(ux, m, j.get("source", "topology")) for m, j in zip(ms0, H["meshes"])]
+    built = [build_grid(ux, m, j.get("source", "topology"), j) for m, j in zip(ms0, H["meshes"])]
     grids, ms = [b[0] for b in built], [b[1] for b in built]
     locs = [Locator(m) for m in ms]
     init_vars = [obs_vars(g._ds, skip=()) for g in grids]
@@ -233,7 +276,9 @@ def execute(H, driver, stats=None):
     model_ops, impl_outs = [], []
     for gi, (m0, m) in enumerate(zip(ms0, ms)):
         # a face-vertex source must describe the mesh it was given (that is the reader's property, C01)
-        if m is not m0:
+        if m0 is None:
+            hit("source:file")
+        elif m is not m0:
             ids = Locator(m0).ids(m.lon, m.lat)
             if [[int(ids[v]) for v in f] for f in m.faces] != m0.faces:
                 mismatches.append(dict(relation="C07/source/face-vertices-grid-differs-from-input", step=-1))
@@ -273,7 +318,13 @@ def execute(H, driver, stats=None):
             hit(f"encode:{fmt}")
             hit(f"class:{q}")
             try:
-                out = g.to_xarray(fmt) if api == "to_xarray" else g.encode_as(OLD_API[fmt])
+                hit(f"entry:{api}")
+                if api == "encode_as":
+                    out = g.encode_as(OLD_API[fmt])
+                elif api == "to_xarray()" and fmt == "ugrid":
+                    out = g.to_xarray()
+                else:
+                    out = g.to_xarray(fmt)
             except Exception as e:
                 impl_outs.append(None)
                 fail(si, f"C07/{fmt}/encode/raises/{type(e).__name__}/{q}",
@@ -319,6 +370,9 @@ def execute(H, driver, stats=None):
                                    [[int(x) for x in r] for r in rows]))
                     b += 1
                 c = np.asarray(out["coord"].values, float)
+                if c.ndim == 2 and c.shape[0] == 3:
+                    nrm = np.linalg.norm(c, axis=0)
+                    c = c / np.where(nrm > 0, nrm, 1.0)  # positions on the sphere are directions
                 cls = []
                 wrong = unit_rad(m.lon, m.lat)  # degrees handed to the radians function
                 for i in range(m.n_node):
@@ -352,12 +406,12 @@ def execute(H, driver, stats=None):
                 rows = loc.ids(lonc, latc).tolist() if lonc.ndim == 2 else []
                 obs = dict(corners=rows)
                 impl_outs.append(("scrip", obs))
-                if driver.ask("C07.scripspec", enc_rows(m.rows()), enc_rows(rows)) != "1":
+                if driver.ask("C07.scripspec", enc_rows(loc.name_rows(m.rows())), enc_rows(rows)) != "1":
                     export_ok = False
                     fail(si, f"C07/scrip/export/corners/{q}", "the corner table of the SCRIP export does not hold the faces' corner positions in order",
                          obs, ["scrip_corners"])
             # (b) re-open directly and after to_netcdf
-            orig = m.faces
+            orig = loc.name_faces(m.faces)
             results = {}
             tables = {}
             carried = []
@@ -381,7 +435,9 @@ def execute(H, driver, stats=None):
                         out.to_netcdf(fn)
                     except Exception as e:
                         mm = re.search(r"attr(?:ibute)? b?'([^']+)'", str(e))
-                        results[path] = ("to_netcdf", type(e).__name__, mm.group(1) if mm else "", str(e)[:160])
+                        m2_ = re.search(r"Key '([^']+)' already exists in attrs", str(e))
+                        what_attr = ("both-in-attrs-and-encoding:" + m2_.group(1)) if m2_ else (mm.group(1) if mm else "")
+                        results[path] = ("to_netcdf", type(e).__name__, what_attr, str(e)[:160])
                         continue
                     src = fn
                 try:
@@ -484,6 +540,9 @@ def execute(H, driver, stats=None):
                 hit("exodus-output-matches=single-full-width-block-model")
         elif any(io is not None and io[0] == "exodus" for io in impl_outs):
             hit("exodus-output-matches=blocks-by-size-model")
+        for si, mo in enumerate(model_outs):
+            if mo is not None and mo[0] == "scrip" and mo[1] is not None and si < len(H["ops"]):
+                mo[1]["corners"] = locs[H["ops"][si][1]].name_rows(mo[1]["corners"])
         for si, (io, mo) in enumerate(zip(impl_outs, model_outs)):
             if io is None or mo is None:
                 continue
@@ -630,8 +689,37 @@ def pick_mesh(rng, cls=None, big=False):
     return m
 
 
+ENTRIES = ["to_xarray", "encode_as", "to_xarray()"]  # to_xarray() = the default argument (ugrid)
+
+
 def api(rng):
-    return "to_xarray" if rng.random() < 0.75 else "encode_as"
+    """every public entry point that exports, drawn at random (both map to the ONE model operation Op.encode)"""
+    return rng.choice(["to_xarray", "to_xarray", "encode_as", "encode_as", "to_xarray()"])
+
+
+def file_histories(rng, thorough):
+    """grids opened from the sample files of the repository (all formats), exported through both entry points,
+    fresh and after something was materialised; the exports are compared with the opened grid itself"""
+    out = []
+    base = meshfiles_dir()
+    for rel in SAMPLE_FILES:
+        f = base / rel
+        if not f.is_file():
+            continue
+        if rel in HUGE_FILES:  # tens of thousands of faces: one UGRID export in the thorough tier
+            if thorough:
+                out.append(dict(meshes=[file_json(rel)], ops=[["enc", 0, "ugrid", "to_xarray"]]))
+            continue
+        big = rel in BIG_FILES  # thousands of faces: thorough tier, ordered formats only (the Exodus multiset check is quadratic)
+        if big and not thorough:
+            continue
+        fm = ["ugrid", "scrip"] if big else FMTS
+        out.append(dict(meshes=[file_json(rel)], ops=[["enc", 0, f_, a] for f_, a in zip(fm, ["to_xarray", "encode_as", "to_xarray"])]
+                        + [["enc", 0, "ugrid", "encode_as"]]))
+        out.append(dict(meshes=[file_json(rel)], ops=[["mat", 0, rng.sample(["edge_node_connectivity", "face_lon", "node_face_connectivity",
+                                                                             "n_nodes_per_face", "node_x", "face_edge_connectivity"], 3)],
+                                                      ["enc", 0, "ugrid", api(rng)], ["enc", 0, rng.choice(fm), api(rng)]]))
+    return out
 
 
 def directed(rng):
@@ -674,6 +762,18 @@ def directed(rng):
                   ops=[["mat", 0, TABLES + ["face_lon", "bounds"]], ["enc", 0, "ugrid", "encode_as"], ["enc", 1, "ugrid", "to_xarray"],
                        ["enc", 0, "exodus", "to_xarray"]]))
     out = [dict(meshes=[mesh_json(m) for m in h["meshes"]], ops=h["ops"]) for h in H]
+    # every entry point x every format x every kind of source, on a FRESH grid (nothing asked of it before) and
+    # after materialisations: the export must not depend on which dispatcher was called
+    for src in ("topology", "xyz"):
+        for m in (uni, mixed):
+            for f in FMTS:
+                for a in (ENTRIES if f == "ugrid" else ENTRIES[:2]):
+                    out.append(dict(meshes=[mesh_json(m, src)], ops=[["enc", 0, f, a]]))
+            out.append(dict(meshes=[mesh_json(m, src), mesh_json(m, src)],
+                            ops=[["mat", 0, ["edge_node_connectivity", "face_face_connectivity"]], ["mat", 1, ["edge_node_connectivity", "face_face_connectivity"]],
+                                 ["enc", 0, "ugrid", "to_xarray"], ["enc", 1, "ugrid", "encode_as"],
+                                 ["enc", 0, "scrip", "encode_as"], ["enc", 1, "scrip", "to_xarray"],
+                                 ["enc", 0, "exodus", "to_xarray"], ["enc", 1, "exodus", "encode_as"]]))
     # Cartesian-only sources (no node_lon/node_lat in the dataset until something asks for them)
     for m in (uni, mixed, three):
         for f in FMTS:
@@ -841,7 +941,9 @@ def run_history(ctx, H, tag):
 
 
 def run(ctx):
-    ctx.rule = ("histories [materialise S on g_i | encode g_j as ugrid/exodus/scrip via to_xarray or encode_as] over 1-3 grids "
+    ctx.rule = ("histories [materialise S on g_i | encode g_j as ugrid/exodus/scrip via Grid.to_xarray(fmt), Grid.to_xarray() or Grid.encode_as(FMT), "
+                "drawn at random and all mapped to the one model operation] over 1-3 grids; grids also opened from every readable sample "
+                "file under test/meshfiles (UGRID, Exodus, SCRIP, MPAS, GEOS-CS; ESMF/RLL1deg in the thorough tier) "
                 "(harness/meshes generators, built by Grid.from_topology (lon/lat only) or Grid.from_face_vertices (Cartesian only): uniform tri/quad, prisms/antiprisms (two sizes), split prisms and merged duals "
                 "(three or more sizes), partial lattices/fans/isolated faces, random renumbering/rotation, nodes that no face uses at the "
                 "start/middle/end of the numbering, an isolated first face; sizes 3..8, plus 9-/10-gons), "
@@ -871,6 +973,8 @@ def run(ctx):
             run_history(ctx, json.loads(f.read_text())["history"], "corpus")
     for H in directed(rng):
         run_history(ctx, H, "directed")
+    for H in file_histories(rng, ctx.thorough or ctx.escalate):
+        run_history(ctx, H, "sample-file")
     for _ in range(ctx.n(24, 1200)):
         run_history(ctx, random_history(rng, big=ctx.thorough), "random")
     for H in subset_histories(rng, None if (ctx.thorough or ctx.escalate) else 10):
